@@ -793,6 +793,18 @@ func main() {
 		emitHist(cf, st, plans[i], tmpH[i].h, tmpH[i].n)
 	}
 
+	// known finding taskexecutor-stale-identifier: the size bound drops a task but its identifier stays in the map
+	{
+		te := timed.NewTaskExecutor[int](0, timed.WithMaxQueueSize(1))
+		base := time.Now()
+		te.ExecuteAt(0, func() {}, base.Add(time.Hour))
+		te.ExecuteAt(1, func() {}, base.Add(2*time.Hour)) // dropped at once (last array slot)
+		if te.Size() == 1 && te.Cancel(1) && te.Size() == 1 {
+			st.Known = append(st.Known, "taskexecutor-stale-identifier")
+		}
+		te.Shutdown(timed.CancelPendingElements, timed.DontWaitForShutdown)
+	}
+
 	// D18c with the yield hook: a Cancel that returned before the select is entered must win
 	if *hookTrials > 0 {
 		d, hung := lateCancel(*hookTrials)
